@@ -14,7 +14,8 @@ use crate::target::{mk_ctx, SpanRec};
 use crate::util::*;
 use crate::Args;
 use re::geom::{vertex, Tri, Vertex};
-use re::math::color::{rgba, Color4};
+use re::math::color::{rgb, rgba, Color3f, Color4};
+use re::math::Vary;
 use re::math::mat::{orthographic, perspective, viewport, Mat4x4, RealToProj};
 use re::math::point::{pt2, pt3};
 use re::math::vec::ProjVec4;
@@ -30,6 +31,25 @@ use serde_json::{json, Value};
 use std::io::Write;
 
 type Vtx = Vertex<ProjVec4, f32>;
+
+/// Varying types the image scenes are rendered with: the f32 attribute is embedded in the type and
+/// read back from it in the fragment shader (each type interpolates through its own Lerp / Vary impl).
+trait AttrV: Vary + re::math::Lerp + Clone + 'static {
+    fn make(a: f32) -> Self;
+    fn first(&self) -> f32;
+}
+impl AttrV for f32 {
+    fn make(a: f32) -> Self { a }
+    fn first(&self) -> f32 { *self }
+}
+impl AttrV for Color3f {
+    fn make(a: f32) -> Self { rgb(a, 0.5 * a, 1.0) }
+    fn first(&self) -> f32 { self.r() }
+}
+impl AttrV for (f32, re::math::vec::Vec2) {
+    fn make(a: f32) -> Self { (a, re::math::vec::vec2(-a, 3.0)) }
+    fn first(&self) -> f32 { self.0 }
+}
 const SENT: f32 = -7777.0;
 
 fn word(x: f32) -> Color4 {
@@ -63,6 +83,14 @@ fn clampi(x: f64) -> i64 {
 }
 
 fn exec_img(case: &Value) -> Value {
+    match case.get("vt").and_then(|v| v.as_str()).unwrap_or("f32") {
+        "col3" => exec_img_t::<Color3f>(case),
+        "tup" => exec_img_t::<(f32, re::math::vec::Vec2)>(case),
+        _ => exec_img_t::<f32>(case),
+    }
+}
+
+fn exec_img_t<V: AttrV>(case: &Value) -> Value {
     let (bw, bh) = (gu(case, "bw"), gu(case, "bh"));
     let vp: Vec<u32> = case["vp"].as_array().unwrap().iter().map(|v| v.as_u64().unwrap() as u32).collect();
     let to_screen = viewport(pt2(vp[0], vp[1])..pt2(vp[2], vp[3]));
@@ -70,12 +98,11 @@ fn exec_img(case: &Value) -> Value {
     // all clip coordinates are multiplied by 2^sc (exact): the image is the same,
     // reciprocal depths scale by 2^-sc (undone below)
     let scale = 2f32.powi(case.get("sc").and_then(|v| v.as_i64()).unwrap_or(0) as i32);
-    let mut verts: Vec<Vtx> = vec![];
+    let mut verts: Vec<Vertex<ProjVec4, V>> = vec![];
     for t in tris_in {
         for i in 0..3 {
-            let mut v = crate::target::lat_vertex(&t["v"][i], t["a"][i].as_i64().unwrap() as f32);
-            v.pos = v.pos * scale;
-            verts.push(v);
+            let v = crate::target::lat_vertex(&t["v"][i], t["a"][i].as_i64().unwrap() as f32);
+            verts.push(vertex(v.pos * scale, V::make(v.attrib)));
         }
     }
     let faces: Vec<Tri<usize>> = (0..tris_in.len()).map(|t| Tri([3 * t, 3 * t + 1, 3 * t + 2])).collect();
@@ -83,11 +110,10 @@ fn exec_img(case: &Value) -> Value {
     let via = gs(case, "via");
     let cull = case.get("cull").and_then(|v| v.as_i64()).unwrap_or(0);
     let ctx = mk_ctx(&json!({"cull": cull, "sort": 0, "test": 1, "cw": 1, "dw": 1}), Stats::new());
-    let sh = Shader::new(|v: Vtx, _: ()| v, frag_shader);
-    fn go(
+    fn go<V: AttrV>(
         via: &str,
         faces: &[Tri<usize>],
-        verts: &[Vtx],
+        verts: &[Vertex<ProjVec4, V>],
         to_screen: Mat4x4<re::render::NdcToScreen>,
         vp: &[u32],
         dims: (u32, u32),
@@ -96,25 +122,31 @@ fn exec_img(case: &Value) -> Value {
     ) -> bool {
         match via {
             "batch" => {
-                let sh = Shader::new(|v: Vtx, _: ()| v, frag_shader);
+                let sh = Shader::new(|v: Vertex<ProjVec4, V>, _: ()| v, |f: Frag<V>| Some(word(f.var.first())));
                 guard(|| Batch::new().faces(faces).vertices(verts).shader(sh).viewport(to_screen).target(target).context(ctx).render()).is_some()
             }
             "camera" => {
                 // identity view transform and projection: the vertex shader passes clip space through
-                let sh = Shader::new(|v: Vtx, _: (&Mat4x4<RealToProj<World>>, ())| v, frag_shader);
+                let sh = Shader::new(|v: Vertex<ProjVec4, V>, _: (&Mat4x4<RealToProj<World>>, ())| v, |f: Frag<V>| Some(word(f.var.first())));
+                // a side that coincides with the frame is left open-ended in the request
+                let rq: re::util::rect::Rect<u32> = match (vp[2] == dims.0, vp[3] == dims.1) {
+                    (true, true) => (vp[0].., vp[1]..).into(),
+                    (true, false) => (vp[0].., vp[1]..vp[3]).into(),
+                    (false, true) => (vp[0]..vp[2], vp[1]..).into(),
+                    _ => (vp[0]..vp[2], vp[1]..vp[3]).into(),
+                };
                 let cam = Camera::new(dims)
-                    .viewport((vp[0]..vp[2], vp[1]..vp[3]))
+                    .viewport(rq)
                     .mode(Mat4x4::<WorldToView>::identity());
                 let to_world = Mat4x4::<re::math::mat::RealToReal<3, World, World>>::identity();
                 guard(|| cam.render(faces, verts, &to_world, &sh, (), target, ctx)).is_some()
             }
             _ => {
-                let sh = Shader::new(|v: Vtx, _: ()| v, frag_shader);
+                let sh = Shader::new(|v: Vertex<ProjVec4, V>, _: ()| v, |f: Frag<V>| Some(word(f.var.first())));
                 guard(|| render(faces, verts, &sh, (), to_screen, target, ctx)).is_some()
             }
         }
     }
-    let _ = &sh;
     // win 0: the targets are the buffers themselves; 1: windows (MutSlice2) of larger parent buffers,
     // row pitch > width; 2: windows of windows.  Afterwards the windows are copied out and the parent
     // cells outside them must still hold their sentinels (outw counts those that do not).
@@ -410,8 +442,9 @@ fn gen_img(args: &Args, out: &mut dyn Write) {
         // face culling: none / back faces (the default context) / front faces
         let cull = (i / 2) % 3;
         let win = [0, 1, 0, 2][i % 4];
+        let vt = ["f32", "f32", "col3", "f32", "tup"][i % 5];
         writeln!(out, "{}", json!({"k": format!("i{}-{}", args.seed, i), "op": "img", "bw": bw, "bh": bh, "vp": vp,
-            "tris": tris, "kind": kind, "via": via, "sc": sc, "cull": cull, "win": win})).unwrap();
+            "tris": tris, "kind": kind, "via": via, "sc": sc, "cull": cull, "win": win, "vt": vt})).unwrap();
     }
 }
 
@@ -424,6 +457,9 @@ fn gen_safe(args: &Args, out: &mut dyn Write) {
             0 => (1, 1),
             1 => (rng.range(1, 3), rng.range(1, 3)),
             2 => (rng.range(64, 160), rng.range(32, 80)),
+            // very wide and flat (and tall and narrow): a relative overshoot of 1e-6 of a long edge
+            // becomes a whole pixel only on a long axis
+            3 if i % 4 == 1 => if rng.chance(1, 2) { (rng.range(700, 1200), rng.range(2, 6)) } else { (rng.range(2, 6), rng.range(700, 1200)) },
             _ => (rng.range(2, 24), rng.range(2, 18)),
         };
         let vp = if rng.chance(1, 2) {
